@@ -397,6 +397,77 @@ def r18_11(ctx, rep):
                "variable" % norm(c)[:80])
 
 
+@SPEC.rule(
+    "R18.12",
+    "an array attribute is indexed, a scalar one is not — decided by what the value is, not by how many elements it has: in the ndindex "
+    "loop of _expand_vectors the attribute value is handed on whole only where it is known to be a Python scalar (`np.isscalar`) or a CasADi "
+    "expression (whose one-element case is a scalar), or where the statement is the start of an element-by-element descent; `it has exactly "
+    "one element` also holds for `start = {5.0}` on Real w[1], and the element then gets the list",
+)
+def r18_12(ctx, rep):
+    from ..cfg import CFG, assume_truth
+    R = "R18.12"
+    fn = ctx.func(MODEL, "Model._expand_vectors", R)
+    cfg = CFG(fn, R)
+    n = 0
+    for lp in ast.walk(fn):
+        if not (isinstance(lp, ast.For) and "np.ndindex(" in norm(lp.iter) and any("CASADI_ATTRIBUTES" in norm(x) for x in ast.walk(lp)) and isinstance(lp.target, ast.Name)):
+            continue
+        ind = lp.target.id
+        srcs = {x.targets[0].id for x in ast.walk(lp) if isinstance(x, ast.Assign) and isinstance(x.targets[0], ast.Name)
+                and isinstance(x.value, ast.Call) and is_name(x.value.func, "getattr")}
+        dsts = {c.args[2].id for c in ast.walk(lp) if isinstance(c, ast.Call) and is_name(c.func, "setattr") and len(c.args) == 3 and isinstance(c.args[2], ast.Name)}
+        inside = {id(x) for b in lp.body for x in ast.walk(b)}
+        for node in cfg.stmts():
+            a = node.ast
+            if id(a) not in inside or not (isinstance(a, ast.Assign) and isinstance(a.targets[0], ast.Name) and a.targets[0].id in dsts
+                                           and isinstance(a.value, ast.Name) and a.value.id in srcs):
+                continue
+            n += 1
+            src = a.value.id
+            known = [g for g in cfg.dominated_by(node.id, lambda x: x.kind == "assume") if
+                     assume_truth(g, "np.isscalar(%s)" % src) is True or assume_truth(g, "isinstance(%s, ca.MX)" % src) is True]
+            # the start of a descent through nested lists: `val = value` followed by `for i in <multi-index>: val = val[i]`
+            descent = False
+            for holder in ast.walk(lp):
+                for f_ in ("body", "orelse"):
+                    lst = getattr(holder, f_, None)
+                    if isinstance(lst, list) and any(x is a for x in lst):
+                        i = [k for k, x in enumerate(lst) if x is a][0]
+                        nxt = lst[i + 1] if i + 1 < len(lst) else None
+                        descent = isinstance(nxt, ast.For) and is_name(nxt.iter, ind)
+            rep.ob(R, SITE, "`%s` (line offset #%d) hands on a value known to be scalar" % (norm(a), n), bool(known) or descent,
+                   "the attribute is handed to the element un-indexed under a test that does not say it is a scalar (np.isscalar / a CasADi "
+                   "expression): a one-element list or matrix attribute becomes the element's value as a container")
+    if n < 2:
+        raise MechanismMissing(R, "fewer than 2 un-indexed attribute assignments found in the ndindex loop of _expand_vectors")
+
+
+@SPEC.rule(
+    "R18.13",
+    "scalar names are composed component by component: _expand_vectors builds the element name format from the components of the dotted name "
+    "and their shapes, and edits no name with str.replace / re.sub — `pipe.p` with the placeholder put `behind p` by a textual replace "
+    "becomes `p[{}]ipe.p`",
+)
+def r18_13(ctx, rep):
+    R = "R18.13"
+    fn = ctx.func(MODEL, "Model._expand_vectors", R)
+    probe = ast.parse("def f(n, s):\n    fmt = n\n    fmt = fmt.replace(s, s + '[{}]', 1)\n").body[0]
+
+    def edits(f):
+        return ["line %d: %s" % (c.lineno, norm(c)[:60]) for c in ast.walk(f) if isinstance(c, ast.Call) and (
+            (isinstance(c.func, ast.Attribute) and c.func.attr == "replace" and len(c.args) >= 2) or (call_name(c) or "") in ("re.sub", "re.subn"))]
+
+    if not edits(probe):
+        raise AnalysisError(R, "self-test of the name-editing detector failed")
+    hits = edits(fn)
+    fmts = [st for st in ast.walk(fn) if isinstance(st, (ast.Assign, ast.AugAssign)) and any(
+        isinstance(t, ast.Name) and "format" in t.id for t in (st.targets if isinstance(st, ast.Assign) else [st.target]))]
+    if len(fmts) < 2:
+        raise MechanismMissing(R, "the construction of the element name format was not found in _expand_vectors")
+    rep.ob(R, SITE, "no textual replace on a name", not hits, "; ".join(hits[:3]))
+
+
 # -- seeded variants ---------------------------------------------------------
 from ._mut import replace_in_func  # noqa: E402
 
